@@ -192,9 +192,14 @@ def check(case, ctx):
     if case["end"]:
         kw["endpoints"] = conv(case["end"])
     snap0 = refsim.snapshot(c0)
+    kw_before = {k_: (sorted(v_) if not isinstance(v_, (list, tuple)) else list(v_)) for k_, v_ in kw.items()}
     m = need(lib(cg.tx.miter, c0, c1, **kw), "miter", f"miter(c0, c1, startpoints={case['start']}, endpoints={case['end']}, as {form})")
     if refsim.snapshot(c0) != snap0:
         raise Violation("miter|mutates_argument", "miter modified c0")
+    for k_, v_ in kw.items():
+        now = sorted(v_) if not isinstance(v_, (list, tuple)) else list(v_)
+        if now != kw_before[k_]:
+            raise Violation("miter|mutates_collection_argument", f"miter modified the {k_} collection passed by the caller: {kw_before[k_]} -> {now}")
     if m.inputs() != tied:
         raise Violation("miter|inputs", f"miter inputs {sorted(m.inputs())} != tied startpoints {sorted(tied)}")
     if m.outputs() != {"sat"}:
